@@ -3,6 +3,7 @@ package props
 import (
 	"crypto/x509"
 	"fmt"
+	"strings"
 	"time"
 
 	"github.com/google/go-tdx-guest/verify"
@@ -22,10 +23,13 @@ var c06Roles = []struct {
 	{"qe.signer", 2, false}, {"qe.root", 2, false}, {"qeidentity.nextUpdate", 2, false},
 	{"crl.signer", 3, true}, {"crl.root", 3, true}, {"pckcrl.nextUpdate", 3, true},
 	{"rootcrl.nextUpdate", 4, true},
+	// one short-lived root certificate delivered in both the TCB-Info and the QE-Identity issuer chain
+	// (as Intel's are): it is judged at the TCB-Info time for one response and at the QE-Identity time for the other
+	{"shared.root@tcbinfo", 1, false}, {"shared.root@qeidentity", 2, false},
 }
 
 func C06(c *core.Ctx) {
-	c.Rule = "worlds in which exactly one artefact (each of the nine certificate roles - PCK chain root / intermediate / leaf, signer and root of the TCB-Info, QE-Identity and PCK-CRL issuer chains, realised as re-issued certificates with the same key and name - the two JSON documents, the two CRLs) expires at E while everything else lives for years; the entry of the time set that judges it at E-1s, E, E+1s, E+1d, E+400d with the four other entries pairwise distinct and either all before E or all after E; not-yet-valid path certificates; zero time entries (x509 wall-clock fallback) and a nil time set. Ground truth: accepted iff every artefact is unexpired at its own entry. non-trivial = every case; distinct = distinct (role, time set)"
+	c.Rule = "worlds in which exactly one artefact (each of the nine certificate roles - PCK chain root / intermediate / leaf, signer and root of the TCB-Info, QE-Identity and PCK-CRL issuer chains, realised as re-issued certificates with the same key and name - the two JSON documents, the two CRLs; and one short-lived root delivered in both the TCB-Info and the QE-Identity chain) expires at E while everything else lives for years; the entry of the time set that judges it at E-1s, E, E+1s, E+1d, E+400d with the four other entries pairwise distinct and either all before E or all after E; not-yet-valid path certificates; sub-second offsets around E (E-1ms, E+1ms, E+500ms, E+999ms; oracle only); zero time entries (x509 wall-clock fallback) and a nil time set. Ground truth: accepted iff every artefact is unexpired at its own entry. non-trivial = every case; distinct = distinct (role, time set)"
 	r := c.Rng
 	day := 24 * time.Hour
 	far := baseTime.Add(5 * 365 * day)
@@ -95,6 +99,9 @@ func C06(c *core.Ctx) {
 				cSigner = reissue(pki.Inter, pki.Root, true, "Intel SGX PCK Platform CA", E, nil, rootDP)
 			case "crl.root":
 				cRoot = shortRoot()
+			case "shared.root@tcbinfo", "shared.root@qeidentity":
+				sr := shortRoot()
+				tRoot, qRootC = sr, sr
 			}
 			w.TcbInfoHeader = map[string][]string{world.TcbInfoIssuerChainHeader: {pki.IssuerChainHeader(tSigner, tRoot)}}
 			w.QeIdentityHeader = map[string][]string{world.QeIdentityIssuerChainHeader: {pki.IssuerChainHeader(qSigner, qRootC)}}
@@ -147,11 +154,37 @@ func C06(c *core.Ctx) {
 					crl := role.crl || (ri+rep)%2 == 0
 					// artefacts only looked at with revocation checking do not matter without it
 					want := boolInt(own.ok)
+					if strings.HasPrefix(role.name, "shared.root") && others == "after" {
+						want = 0 // the other response carries the same root and is judged after its end
+					}
 					try(fmt.Sprintf("own=%s others=%s crl=%v", own.name, others, crl), ts, crl, want)
 					if role.crl {
 						try(fmt.Sprintf("own=%s others=%s revocation off (artefact not consulted)", own.name, others), ts, false, 1)
 					}
 				}
+			}
+			// sub-second: a verification time inside the first second after the end is after the end
+			// (the model's clock counts whole seconds, so these are judged by the oracle alone)
+			for _, d := range []time.Duration{-time.Millisecond, time.Millisecond, 500 * time.Millisecond, 999 * time.Millisecond} {
+				var t [5]time.Time
+				for i := range t {
+					t[i] = E.Add(-50*day - time.Duration(1+i)*7*time.Hour)
+				}
+				t[role.field] = E.Add(d)
+				ts := &verify.TimeSet{PckCertChain: t[0], TcbInfo: t[1], QeIdentity: t[2], PckCrl: t[3], RootCaCrl: t[4]}
+				sc := scenarioFromWorld(w, true, true)
+				sc.Now, sc.Wall = ts, time.Now()
+				sc.Roots = []*x509.Certificate{pki.Root.Cert}
+				want := d < 0
+				runScenarioImplOnly(c, "subsecond-"+role.name, fmt.Sprintf("own=E%+v others before", d), sc, func(cl uint64, err error) string {
+					if want && cl != 0 {
+						return "nothing is expired at its own verification time, yet rejected: " + err.Error()
+					}
+					if !want && cl == 0 {
+						return fmt.Sprintf("accepted although %s ended %v before its verification time", role.name, d)
+					}
+					return ""
+				})
 			}
 			if ri == 0 {
 				// zero entries / nil time set: the wall clock (inside every window of this world except E roles)
